@@ -26,7 +26,7 @@ ASSUMPTIONS = [
     "find_head: precondition 'exactly one block without predecessor' (asserted by the code); otherwise an AssertionError is the accepted answer",
     "find_headers_and_entries on a subset no outside block jumps into: the documented fallback ([head of the graph], []) or empty lists are both accepted",
     "dominators: >= 1 entry (RuntimeError otherwise, documented); immediate dominators compared only when every block is reachable from an entry (resp. reaches an exit)",
-    "plain BasicBlocks without declared back edges; subsets are subsets of the graph's own blocks",
+    "plain BasicBlocks, with and without a declared back edge (queries are defined over the non-back-edge arcs, as BasicBlock.jump_targets documents); subsets are subsets of the graph's own blocks",
     "history dimension: one SCFG object edited into the next explored digraph (up to 3 digraphs in a row) through its public mapping and through add_block / remove_blocks, queried after every edit",
 ]
 
@@ -83,7 +83,10 @@ def check(desc):
     from numba_scfg.core.transformations import _doms, _post_doms, _imm_doms
 
     names = desc["names"]
-    tg = [tuple(t) for t in desc["targets"]]
+    raw = [tuple(t) for t in desc["targets"]]
+    bes = [tuple(b) for b in desc.get("backedges", [[] for _ in names])]
+    # the arcs the queries are defined over: jump targets that are not declared back edges (every occurrence of the name)
+    tg = [tuple(t for t in raw[i] if t not in bes[i]) for i in range(len(names))]
     N = len(names)
     idx = {n: i for i, n in enumerate(names)}
     fails = []
@@ -92,7 +95,7 @@ def check(desc):
         fails.append({"kind": "query", "signature": sig, "detail": str(detail)[:300]})
 
     def mk():
-        return SCFG({names[i]: BasicBlock(names[i], tg[i]) for i in range(N)})
+        return SCFG({names[i]: BasicBlock(names[i], raw[i], bes[i]) for i in range(N)})
 
     g = mk()
     adj = [[names[j] in tg[i] for j in range(N)] for i in range(N)]
@@ -137,25 +140,32 @@ def check(desc):
     # --- subset queries ---
     for mask in range(1, 2 ** N):
         sub = {names[i] for i in range(N) if mask >> i & 1}
-        eh, ee = set(), set()
-        for o in range(N):
-            if names[o] in sub:
-                continue
-            hit = sub & set(tg[o])
-            if hit:
-                eh |= hit
-                ee.add(names[o])
+        # "the inside targets of outside blocks": the statement does not say whether an arc that the outside block
+        # declares a back edge counts; both readings are accepted where they differ (only with declared back edges)
+        readings = []
+        for arcs in ([tg] if raw == list(tg) or all(not b for b in bes) else [tg, raw]):
+            eh, ee = set(), set()
+            for o in range(N):
+                if names[o] in sub:
+                    continue
+                hit = sub & set(arcs[o])
+                if hit:
+                    eh |= hit
+                    ee.add(names[o])
+            readings.append((eh, ee))
         try:
             hh, en = mk().find_headers_and_entries(set(sub))
-            if eh:
-                if (list(hh), list(en)) != (sorted(eh), sorted(ee)):
-                    fail("headers-entries-wrong", (sub, hh, en, sorted(eh), sorted(ee)))
-            else:
-                ok = (list(hh), list(en)) == ([], []) or (len(heads) == 1 and (list(hh), list(en)) == ([heads[0]], []))
-                if not ok:
-                    fail("headers-entries-wrong-fallback", (sub, hh, en, heads))
+            ok = False
+            for eh, ee in readings:
+                if eh:
+                    ok = ok or (list(hh), list(en)) == (sorted(eh), sorted(ee))
+                else:
+                    ok = ok or (list(hh), list(en)) == ([], []) or (len(heads) == 1 and (list(hh), list(en)) == ([heads[0]], []))
+            if not ok:
+                eh, ee = readings[0]
+                fail("headers-entries-wrong" if eh else "headers-entries-wrong-fallback", (sub, hh, en, sorted(eh), sorted(ee), heads))
         except AssertionError:
-            if eh or len(heads) == 1:
+            if any(eh for eh, _ in readings) or len(heads) == 1:
                 fail("headers-entries-assert", (sub,))
         except Exception as ex:
             fail("headers-entries-" + exc_signature(ex), (sub,))
@@ -341,16 +351,19 @@ def harness(E, ctx, aux):
 
 
 def jobs(tier):
-    def mk(name, N, K, max_edges=None, budget=900.0, required=True, exp=None):
-        return Job(name=name, space=lambda: s4_space(N, K, max_edges), harness=harness,
+    def mk(name, N, K, max_edges=None, budget=900.0, required=True, exp=None, be=False):
+        return Job(name=name, space=lambda: s4_space(N, K, max_edges, backedges=be), harness=harness,
                    bounds={"space": "S4 digraphs", "blocks": N, "slots": K, "max_edges": max_edges, "external_names": 1,
-                           "subsets": "all 2^N", "pairs": "all"},
+                           "subsets": "all 2^N", "pairs": "all", "declared_back_edge_per_block": "none or any one of its target names" if be else "none"},
                    budget_s=budget, required=required, expect_paths=exp)
 
     def cnt(N, K):
         return sum((N + 1) ** k for k in range(K + 1)) ** N
 
     js = [mk("S4-N1-K3", 1, 3, exp=cnt(1, 3)), mk("S4-N2-K3", 2, 3, exp=cnt(2, 3)), mk("S4-N3-K2", 3, 2, exp=cnt(3, 2))]
+    # blocks that declare one of their target names a back edge: the queries are defined over the remaining arcs
+    js.append(mk("S4-N2-K3-declared-backedges", 2, 3, be=True))
+    js.append(mk("S4-N3-K2-declared-backedges" + ("-le4-edges" if tier == "quick" else ""), 3, 2, max_edges=4 if tier == "quick" else None, be=True))
     if tier == "quick":
         js.append(mk("S4-N3-K3-le6-edges", 3, 3, max_edges=6))
         js.append(mk("S4-N4-K2-le5-edges", 4, 2, max_edges=5))
